@@ -2,6 +2,7 @@
 mod c10;
 mod c19;
 mod c21;
+mod c25;
 mod c26;
 mod c40;
 mod c50;
@@ -22,7 +23,7 @@ use dst_common::{Tier, seed_from_env};
 use runner::Check;
 
 fn checks() -> Vec<Check> {
-    vec![c10::check(), c21::check(), c26::check(), c40::check(), c50::check(), c53::check(), sqlchecks::c02(), sqlchecks::c05(), sqlchecks::c06(), sqlchecks::c08(), sqlchecks::c18(), sqlchecks::c19(), sqlchecks::c20(), sqlchecks::c31()]
+    vec![c10::check(), c21::check(), c25::check(), c26::check(), c40::check(), c50::check(), c53::check(), sqlchecks::c02(), sqlchecks::c05(), sqlchecks::c06(), sqlchecks::c08(), sqlchecks::c18(), sqlchecks::c19(), sqlchecks::c20(), sqlchecks::c31()]
 }
 
 fn usage() -> ! {
@@ -43,6 +44,8 @@ fn main() {
     }));
     runner::ensure_no_aslr();
     datafusion_common_runtime::set_join_set_tracer(&sim::TRACER).expect("tracer");
+    datafusion_common::verif::set_random_id_hook(sim::random_id_hook);
+    datafusion_common::verif::set_order_hook(sim::order_hook);
     let all = checks();
     match args[0].as_str() {
         "list" => {
@@ -97,9 +100,13 @@ fn main() {
             let Some(check) = all.iter().find(|c| c.property == args[1]) else { usage() };
             let idx: u64 = args[2].parse().unwrap();
             let (scn, case) = check.case_for(seed_from_env(), idx, Tier::Quick);
+            let pre = if std::env::var_os("VERIF_SELFTEST_FORK_FIRST").is_some() { Some(runner::run_isolated(scn, &case, vec![], false, true).unwrap()) } else { None };
             let a = runner::run_here(scn, &case, vec![], false, true);
             let b = runner::run_here(scn, &case, vec![], false, true);
             let c = runner::run_isolated(scn, &case, vec![], false, true).unwrap();
+            if let Some(p) = &pre {
+                println!("forked-before-any-run: hash {} (first in-process {}, forked-after {})", p["trace_hash"], a["trace_hash"], c["trace_hash"]);
+            }
             for (name, x) in [("second in-process", &b), ("forked", &c)] {
                 let la = a["log"].as_array().unwrap();
                 let lx = x["log"].as_array().unwrap();
